@@ -58,3 +58,32 @@ Proof.
   - vm_compute. reflexivity.
   - vm_compute. repeat split.
 Qed.
+
+(* ---- soil: a concrete well-formed profile (non-vacuity of soil_agree) ---- *)
+From Hermes Require Import SoilModel SoilProofs.
+
+Definition sample_hor (corg tex depth fc : string) : ahor :=
+  {| a_corg := lstr_of corg; a_tex := lstr_of tex; a_depth := lstr_of depth; a_ld := lstr_of "2"; a_stone := lstr_of "05";
+     a_cn := lstr_of "10"; a_fc := lstr_of fc; a_wp := lstr_of "12"; a_ps := lstr_of "45"; a_sand := lstr_of "26";
+     a_silt := lstr_of "63"; a_clay := lstr_of "11" |}.
+Definition sample_profile : aprofile :=
+  {| ap_sid := lstr_of "002"; ap_root := lstr_of "05"; ap_draindepth := lstr_of "20"; ap_drainpct := lstr_of "00";
+     ap_gw := lstr_of "99"; ap_hor := [sample_hor "1.14" "ULS" "03" "31"; sample_hor "0.40" "SS" "20" ""] |}.
+
+Ltac nocomma := cbn; unfold no_comma; cbn; intuition discriminate.
+Ltac fit := split; [cbn; lia | nocomma].
+
+Lemma sample_profile_wf : wf_profile sample_profile.
+Proof.
+  constructor; try fit.
+  - apply Forall_cons; [|apply Forall_cons; [|apply Forall_nil]]; constructor; try fit; try (split; [cbn; lia|nocomma]); try (split; [reflexivity|nocomma]).
+  - cbn; lia.
+Qed.
+
+Lemma sample_profile_loads :
+  wf_profile sample_profile /\
+  exists sd, load_soil_txt (T:=float) true (ap_sid sample_profile) (render_txt sample_profile) = Ok sd /\
+             sd_azho sd = 2 /\ sd_n sd = 20.
+Proof.
+  split; [exact sample_profile_wf|]. eexists. split; [vm_compute; reflexivity|]. split; reflexivity.
+Qed.
